@@ -107,28 +107,16 @@ Definition in_range (icd : bool) (e : ev) : bool :=
   | _ => true
   end.
 
-(* everything else that must be right for a file to be accepted.  Shared-namespace names
-   must start with a letter: check_name would also let the literal `_RESERVED_` through,
-   which is the recorded exclusion (see C12_sound_refuted). *)
+(* everything else that must be right for a file to be accepted: valid names (check_name: a leading
+   letter; the directive `_RESERVED_` is not a name), duplicate-free YAML mappings, existing files,
+   well-formed reserved entries, aliases of native types *)
 Definition ev_wf (e : ev) : bool :=
   match e with
   | EFile _ y => y
   | ENoFile _ => false
   | EConst n _ | EStr n | EStruct n | EMsg n _ => starts_with_letter n
   | EAlias n ty => starts_with_letter n && mems ty native_keys
-  | EHost _ n _ | EMod _ n _ => name_ok n
-  | EResHead es => forallb entry_ok es
-  | ESigR _ => true
-  end.
-(* the same with the parser's own notion of a valid name *)
-Definition ev_wf_full (e : ev) : bool :=
-  match e with
-  | EFile _ y => y
-  | ENoFile _ => false
-  | EConst n _ | EStr n | EStruct n => name_ok n
-  | EMsg n _ => name_ok n && negb (String.eqb n reserved_key)
-  | EAlias n ty => name_ok n && mems ty native_keys
-  | EHost _ n _ | EMod _ n _ => name_ok n
+  | EHost _ n _ | EMod _ n _ => starts_with_letter n
   | EResHead es => forallb entry_ok es
   | ESigR _ => true
   end.
@@ -157,16 +145,22 @@ Proof. induction n; simpl; congruence. Qed.
 Lemma length_pad6 s : (6 <= String.length (pad6 s))%nat.
 Proof. unfold pad6. rewrite length_append, length_zeros. lia. Qed.
 
-Lemma name_ok_not_generated n id : name_ok n = true -> n <> reserved_name id.
+Lemma name_ok_not_generated n id : name_ok_msg n = true -> n <> reserved_name id.
 Proof.
-  unfold name_ok. rewrite orb_true_iff, String.eqb_eq. intros [H|H] E.
+  unfold name_ok_msg. rewrite orb_true_iff, String.eqb_eq. intros [H|H] E.
   - subst n. apply (f_equal String.length) in E. unfold reserved_name in E.
     rewrite length_append in E. pose proof (length_pad6 (dec id)). unfold reserved_key in *. simpl in E. lia.
   - subst n. unfold reserved_name, reserved_key in H. simpl in H. discriminate.
 Qed.
 
 Lemma starts_letter_name_ok n : starts_with_letter n = true -> name_ok n = true.
-Proof. unfold name_ok. intros ->. apply orb_true_r. Qed.
+Proof. unfold name_ok. auto. Qed.
+Lemma name_ok_letter n : name_ok n = true -> starts_with_letter n = true.
+Proof. unfold name_ok. auto. Qed.
+Lemma name_ok_msg_letter n : name_ok_msg n = true -> String.eqb n reserved_key = false -> starts_with_letter n = true.
+Proof. unfold name_ok_msg. intros H E. rewrite E in H. exact H. Qed.
+Lemma name_ok_msg_of n : name_ok n = true -> name_ok_msg n = true.
+Proof. unfold name_ok, name_ok_msg. intros ->. apply orb_true_r. Qed.
 Lemma starts_letter_not_key n : starts_with_letter n = true -> n <> reserved_key.
 Proof. intros H E. subst n. discriminate. Qed.
 
@@ -177,7 +171,7 @@ Definition names_all (e : ev) : list string :=
 Lemma in_flat_map_id {A B} (g : A -> list B) l x : In x (flat_map g l) <-> exists e, In e l /\ In x (g e).
 Proof. apply in_flat_map. Qed.
 
-Lemma shared_names_rep s pre n : Rep s pre -> name_ok n = true ->
+Lemma shared_names_rep s pre n : Rep s pre -> name_ok_msg n = true ->
   (In n (shared_names s) <-> In n (shared pre)).
 Proof.
   intros R Hn. unfold shared_names. destruct R as [_ Rc Rs Ra _ _ Rt Rm]. rewrite Rc, Rs, Ra, Rt, Rm.
@@ -202,7 +196,7 @@ Qed.
 (* ---- one event ----------------------------------------------------------------- *)
 
 Local Opaque resolve_alias host_id_out_of_range host_id_range_enforced module_id_out_of_range
-  module_id_range_enforced msg_id_out_of_range reserved_name name_ok reserved_key.
+  module_id_range_enforced msg_id_out_of_range reserved_name name_ok name_ok_msg reserved_key.
 
 Ltac split_ifs H :=
   repeat first
@@ -291,9 +285,9 @@ Proof. intros R. rewrite (r_mods _ _ R). reflexivity. Qed.
 Lemma mod_vals_rep s pre : Rep s pre -> map snd (mods s) = mod_vals pre.
 Proof. intros R. rewrite (r_mods _ _ R). reflexivity. Qed.
 
-Lemma key_name_ok : name_ok reserved_key = true.
-Proof. Local Transparent name_ok reserved_key. reflexivity. Qed.
-Local Opaque name_ok reserved_key.
+Lemma key_name_ok : name_ok_msg reserved_key = true.
+Proof. Local Transparent name_ok_msg reserved_key. reflexivity. Qed.
+Local Opaque name_ok_msg reserved_key.
 
 (* turn the boolean tests left in the context by split_ifs into facts about the past *)
 Ltac norm_tests R :=
@@ -302,8 +296,10 @@ Ltac norm_tests R :=
   | H : negb _ = true |- _ => apply negb_true_iff in H
   | H : mems reserved_key (shared_names _) = _ |- _ =>
       first [rewrite mems_false in H | rewrite mems_In in H]; rewrite (shared_names_rep _ _ _ R key_name_ok) in H
-  | H : mems _ (shared_names _) = _, N : name_ok _ = true |- _ =>
+  | H : mems _ (shared_names _) = _, N : name_ok_msg _ = true |- _ =>
       first [rewrite mems_false in H | rewrite mems_In in H]; rewrite (shared_names_rep _ _ _ R N) in H
+  | H : mems _ (shared_names _) = _, N : name_ok _ = true |- _ =>
+      first [rewrite mems_false in H | rewrite mems_In in H]; rewrite (shared_names_rep _ _ _ R (name_ok_msg_of _ N)) in H
   | H : mems _ (map fst (hosts _)) = _ |- _ =>
       first [rewrite mems_false in H | rewrite mems_In in H]; rewrite (host_names_rep _ _ R) in H
   | H : mems _ (map fst (mods _)) = _ |- _ =>
@@ -367,27 +363,27 @@ Proof.
   - rewrite W. eexists; split; [reflexivity|simpl; rewrite app_nil_r; reflexivity].
   - discriminate.
   - rewrite N. simpl. pose proof (F1 n (or_introl eq_refl)) as A.
-    rewrite <- (shared_names_rep _ _ _ R N), <- mems_false in A. rewrite A.
+    rewrite <- (shared_names_rep _ _ _ R (name_ok_msg_of _ N)), <- mems_false in A. rewrite A.
     eexists; split; [reflexivity|simpl; rewrite app_nil_r; reflexivity].
   - rewrite N. simpl. pose proof (F1 n (or_introl eq_refl)) as A.
-    rewrite <- (shared_names_rep _ _ _ R N), <- mems_false in A. rewrite A.
+    rewrite <- (shared_names_rep _ _ _ R (name_ok_msg_of _ N)), <- mems_false in A. rewrite A.
     eexists; split; [reflexivity|simpl; rewrite app_nil_r; reflexivity].
   - rewrite N. simpl. pose proof (F1 n (or_introl eq_refl)) as A.
-    rewrite <- (shared_names_rep _ _ _ R N), <- mems_false in A. rewrite A.
+    rewrite <- (shared_names_rep _ _ _ R (name_ok_msg_of _ N)), <- mems_false in A. rewrite A.
     rewrite (resolve_alias_native _ _ W2). eexists; split; reflexivity.
-  - rewrite W. simpl. destruct (F3 (n, v) (or_introl eq_refl)) as [A B]. simpl in A, B.
+  - rewrite N. simpl. destruct (F3 (n, v) (or_introl eq_refl)) as [A B]. simpl in A, B.
     rewrite <- (host_names_rep _ _ R), <- mems_false in A. rewrite <- (host_vals_rep _ _ R), <- memz_false in B.
     rewrite A. apply negb_true_iff in G. rewrite G, B.
     eexists; split; [reflexivity|simpl; rewrite app_nil_r; reflexivity].
-  - rewrite W. simpl. destruct (F4 (n, v) (or_introl eq_refl)) as [A B]. simpl in A, B.
+  - rewrite N. simpl. destruct (F4 (n, v) (or_introl eq_refl)) as [A B]. simpl in A, B.
     rewrite <- (mod_names_rep _ _ R), <- mems_false in A. rewrite <- (mod_vals_rep _ _ R), <- memz_false in B.
     rewrite A. apply negb_true_iff in G. rewrite G, B.
     eexists; split; [reflexivity|simpl; rewrite app_nil_r; reflexivity].
   - rewrite N. simpl. pose proof (F1 n (or_introl eq_refl)) as A.
-    rewrite <- (shared_names_rep _ _ _ R N), <- mems_false in A. rewrite A.
+    rewrite <- (shared_names_rep _ _ _ R (name_ok_msg_of _ N)), <- mems_false in A. rewrite A.
     eexists; split; [reflexivity|simpl; rewrite app_nil_r; reflexivity].
-  - rewrite N. simpl. pose proof (F1 n (or_introl eq_refl)) as A.
-    rewrite <- (shared_names_rep _ _ _ R N), <- mems_false in A. rewrite A.
+  - rewrite (name_ok_msg_of _ N). simpl. pose proof (F1 n (or_introl eq_refl)) as A.
+    rewrite <- (shared_names_rep _ _ _ R (name_ok_msg_of _ N)), <- mems_false in A. rewrite A.
     apply String.eqb_neq in K. rewrite K. apply negb_true_iff in G. rewrite G.
     pose proof (F2 id (or_introl eq_refl)) as B. rewrite <- (msgs_ids_rep _ _ R), <- memz_false in B. rewrite B.
     eexists; split; [reflexivity|simpl; rewrite app_nil_r; reflexivity].
@@ -434,11 +430,15 @@ Definition checked_name (e : ev) : option string :=
 Definition is_shared_ev (e : ev) : bool :=
   match e with EConst _ _ | EStr _ | EAlias _ _ | EStruct _ | EMsg _ _ => true | _ => false end.
 
+(* the name check an event is subject to: only handle_message_def lets the directive through *)
+Definition ev_name_ok (e : ev) (n : string) : bool :=
+  match e with EMsg _ _ => name_ok_msg n | _ => name_ok n end.
+
 Inductive conflict (icd : bool) (pre : list ev) : ev -> kind -> Prop :=
 | cx_yaml i : conflict icd pre (EFile i false) KYaml
 | cx_nofile i : conflict icd pre (ENoFile i) KNoFile
-| cx_badname e n : checked_name e = Some n -> name_ok n = false -> conflict icd pre e KName
-| cx_dupname e n : is_shared_ev e = true -> checked_name e = Some n -> name_ok n = true ->
+| cx_badname e n : checked_name e = Some n -> ev_name_ok e n = false -> conflict icd pre e KName
+| cx_dupname e n : is_shared_ev e = true -> checked_name e = Some n -> ev_name_ok e n = true ->
     In n (shared pre) -> conflict icd pre e KDupName
 | cx_block_vs_item es : In reserved_key (shared pre) -> conflict icd pre (EResHead es) KDupName
 | cx_res_range es : ~ In reserved_key (shared pre) -> forallb entry_ok es = false ->
@@ -454,9 +454,9 @@ Inductive conflict (icd : bool) (pre : list ev) : ev -> kind -> Prop :=
     conflict icd pre (EMod c n v) KModRange
 | cx_mod_dup c n v : name_ok n = true -> ~ In n (mod_names pre) -> in_range icd (EMod c n v) = true ->
     In v (mod_vals pre) -> conflict icd pre (EMod c n v) KModDup
-| cx_msg_range n id : name_ok n = true -> n <> reserved_key -> ~ In n (shared pre) ->
+| cx_msg_range n id : name_ok_msg n = true -> n <> reserved_key -> ~ In n (shared pre) ->
     msg_id_out_of_range id = true -> conflict icd pre (EMsg n id) KMsgRange
-| cx_msg_dup n id : name_ok n = true -> n <> reserved_key -> ~ In n (shared pre) ->
+| cx_msg_dup n id : name_ok_msg n = true -> n <> reserved_key -> ~ In n (shared pre) ->
     msg_id_out_of_range id = false -> In id (msg_ids pre) -> conflict icd pre (EMsg n id) KMsgDup
 | cx_sig_range id : msg_id_out_of_range id = true -> conflict icd pre (ESigR id) KMsgRange
 | cx_sig_dup id : msg_id_out_of_range id = false -> In id (msg_ids pre) -> conflict icd pre (ESigR id) KMsgDup.
@@ -466,9 +466,10 @@ Proof.
   intros R C. inversion C; subst; clear C; simpl; unfold chk_shared, reg_msg.
   - reflexivity.
   - reflexivity.
-  - destruct e; simpl in H; inversion H; subst; simpl; unfold chk_shared; rewrite H0; reflexivity.
-  - rewrite <- (shared_names_rep _ _ _ R H1), <- mems_In in H2.
-    destruct e; simpl in H, H0; try discriminate; inversion H0; subst; simpl; unfold chk_shared;
+  - destruct e; simpl in H, H0; inversion H; subst; simpl; unfold chk_shared; rewrite H0; reflexivity.
+  - destruct e; simpl in H, H0, H1; try discriminate; inversion H0; subst;
+      (assert (M : name_ok_msg n = true) by first [exact H1 | exact (name_ok_msg_of _ H1)]);
+      rewrite <- (shared_names_rep _ _ _ R M), <- mems_In in H2; simpl; unfold chk_shared;
       rewrite H1, H2; reflexivity.
   - rewrite <- (shared_names_rep _ _ _ R key_name_ok), <- mems_In in H. rewrite H. reflexivity.
   - rewrite <- (shared_names_rep _ _ _ R key_name_ok), <- mems_false in H. rewrite H, H0. reflexivity.
@@ -576,3 +577,23 @@ Proof.
 Qed.
 Lemma forallb_Forall {A} (p : A -> bool) l : forallb p l = true -> Forall (fun x => p x = true) l.
 Proof. intros H. apply Forall_forall. exact (proj1 (forallb_forall p l) H). Qed.
+
+(* ---- names accepted by check_name start with a letter: nothing registered is called _RESERVED_ ---- *)
+Lemma step_ok_letter icd s e s' : step icd s e = ROk s' ->
+  forall n, In n (shared_decl e) -> starts_with_letter n = true.
+Proof.
+  intros H. destruct e; simpl in H; unfold chk_shared, reg_msg in H; split_ifs H; simpl;
+    first [ intros ? [<-|[]];
+            repeat match goal with X : negb _ = false |- _ => apply negb_false_iff in X end;
+            first [apply name_ok_letter; assumption | apply name_ok_msg_letter; assumption]
+          | intros ? [] ].
+Qed.
+Lemma run_ok_letter icd evs : forall s s', run icd s evs = ROk s' ->
+  forall n, In n (shared evs) -> starts_with_letter n = true.
+Proof.
+  induction evs as [|e r IH]; intros s s' H n I; simpl in *; [contradiction|].
+  destruct (step icd s e) as [s1|] eqn:E; [|discriminate]. unfold shared in I. simpl in I.
+  apply in_app_or in I. destruct I as [I|I]; [exact (step_ok_letter _ _ _ _ E n I)|exact (IH _ _ H n I)].
+Qed.
+Lemma run_ok_no_key icd evs s s' : run icd s evs = ROk s' -> ~ In reserved_key (shared evs).
+Proof. intros H C. pose proof (run_ok_letter icd evs s s' H _ C) as L. exact (starts_letter_not_key _ L eq_refl). Qed.
